@@ -475,6 +475,10 @@ class Analysis:
                         if inner.k == "agg" and inner.a[0] in ("std::result::Result::Ok", "std::option::Option::Some") and isinstance(inner.a[1], dict) and el["name"] in inner.a[1]:
                             e = inner.a[1][el["name"]]
                             continue
+                        # several success constructions join before the `?` (two `Ok(..)` arms of a spliced-in helper): the choice of payloads
+                        if inner.k == "phi" and inner.a[0] and all(a.k == "agg" and a.a[0] in ("std::result::Result::Ok", "std::option::Option::Some") and isinstance(a.a[1], dict) and el["name"] in a.a[1] for a in inner.a[0]):
+                            e = E("phi", [a.a[1][el["name"]] for a in inner.a[0]])
+                            continue
                     if bs.k == "agg" and isinstance(bs.a[1], dict) and bs.a[0].endswith("::" + str(e.a[1])) and el["name"] in bs.a[1]:
                         e = bs.a[1][el["name"]]
                         continue
